@@ -779,6 +779,14 @@ class TrialDataManager(object):
         self.events = events
         self._src_evt_idxs = None
 
+        # The values of the global fit parameter dependent data fields belong
+        # to the previous trial. Forget the fit parameter values they were
+        # calculated for, so that they get recalculated for the new trial, also
+        # if the given events array already holds such a data field.
+        for dfield in self._global_fitparam_data_fields_dict.values():
+            dfield._global_fitparam_value_list = [None] * len(
+                dfield._global_fitparam_name_list)
+
         # Save the number of sources.
         self._n_sources = shg_mgr.n_sources
 
